@@ -6,7 +6,6 @@ recovery rotation / layer2 handler; spec checker evaluated in Coq on the real ob
 import json, os, re
 
 FILES = ["Base/Prelude.v", "Gen/Gates.v", "Model/Perm.v", "Model/C07Check.v", "Proofs/Perm.v"]
-PERMS = {"PermHandleBasketEmergency": 61, "PermCreateDappProposalWithoutBond": 67}
 
 
 def read_gen(R):
@@ -17,13 +16,12 @@ def read_gen(R):
     except OSError:
         return [], [], []
     rows = lambda marker: re.findall(r'^\s*"([^"]*)";? \(\* %s \*\)' % marker, txt, re.M)
-    return rows("GATE"), rows("WRAPPER"), rows("ERROR")
+    tree = dict(re.findall(r'\(\* TREE (\w+)=(\w+) \*\)', txt))
+    return rows("GATE"), rows("WRAPPER"), rows("ERROR"), tree
 
 
-def observe(R, n, dapp, seed=None):
-    env = {"C07_DAPP_PERM": str(dapp)}
-    if seed is not None:
-        env["VERIF_SEED"] = str(seed)
+def observe(R, n, seed=None):
+    env = {"VERIF_SEED": str(seed)} if seed is not None else None
     out = R.harness("c07", ["-n", n], env=env, outdir=os.path.join(R.work, "c07_%s" % (seed if seed is not None else "main")))
     if not out:
         return None
@@ -50,31 +48,26 @@ def report(R, viol, cases):
 
 def run(R):
     R.trusted += ["translator harness/cmd/gen_gates (go/ast: CheckIfAllowedPermission call sites in x/*/keeper/msg_server.go, module keeper wrappers, ProposalPermission/VotePermission bodies; anything outside the fragment is a translator error)",
-                  "hand-written model Model/Perm.v of x/gov permissions (util.go, network_actor.go, permission_registry.go, types.go, actor.go, msg_server.go editors, proposal_handler.go, genesis.go, recovery rotation gov part), validated by the differential run",
+                  "hand-written model Model/Perm.v of x/gov permissions (util.go, network_actor.go, permission_registry.go, types.go, actor.go, msg_server.go editors, proposal_handler.go, genesis.go, recovery rotation gov part; net effect of InitGenesis per actor / per role and of the rotation), validated by the differential run",
                   "no axioms: every theorem of Properties/C07.v is closed under the global context"]
     R.assume += ["KV store prefixes are maps; protobuf round trip of NetworkActor / Permissions is faithful (observed through the keeper getters)",
                  "actor status / votes / skin do not enter the permission rule (VoteProposal additionally requires an Active actor; every actor created by the modelled paths is Active)",
                  "permissions, role ids, addresses are integers; uint32 truncation of permission values is not exercised",
                  "a failed message / proposal enactment is rolled back (harness runs each operation in a cache context, as baseapp does per transaction)",
                  "genesis import is run on a gov store emptied of permission data (prefixes 0x10-0x12, 0x30-0x33, 0x50), i.e. a new chain",
-                 "C07_indexes_refine_partial takes 'each import rebuilt consistent indexes' as a hypothesis; it is decided on every real import by the index-* clauses and by the correspondence run",
+                 "the model's four variation points (layer2 wrapper permission, ClaimCouncilor index write, InitGenesis role blacklists, repaired rotation) are selected by the translator gen_gates from the shape of the code; a wrong selection shows as a correspondence mismatch",
                  "rotation: only the gov:network_actor part of RotateRecoveryAddress is modelled; its acceptance (accounts, fee, proof) is taken from the observation"]
     R.gen("gen_gates", "Gates.v")
     R.coq_files(FILES)
     R.coq_property()
     R.audit()
-    gates, wrappers, gerrs = read_gen(R)
+    gates, wrappers, gerrs, tree = read_gen(R)
     # call sites whose module wrapper checks another permission than the one requested: each is a gate violation
     for w in wrappers:
         R.violation("gate-wrapper:" + w, "the handler requests one permission but the module keeper's CheckIfAllowedPermission wrapper checks another: " + w,
                     {"translator": "harness/cmd/gen_gates", "row": w})
-    dapp = 67
-    for w in wrappers:
-        m = re.match(r"layer2\.CreateDappProposal:requested=\w+:effective=(\w+)$", w)
-        if m:
-            dapp = PERMS.get(m.group(1), 0)
     n = 600 if R.tier == "quick" else 3000
-    obs = observe(R, n, dapp)
+    obs = observe(R, n)
     total = steps = 0
     if obs:
         out, mism, viol, total, cases = obs
@@ -85,13 +78,14 @@ def run(R):
         report(R, viol, cases)
         R.samples = [brief(cases[0]), brief(cases[len(cases) // 2]), brief(cases[-1])]
         R.coverage.update({"traces_validated_against_impl": total, "steps_validated": steps, "input_distribution": dist,
-                           "gate_table": {"msg_gates": len(gates), "wrapper_mismatches": wrappers}})
+                           "gate_table": {"msg_gates": len(gates), "wrapper_mismatches": wrappers},
+                           "tree_variant (translator; the model follows it)": tree})
     # a broken proof / translator / correspondence: widen the search for a concrete failing input
     import vlib
     known = {f["sig"] for f in vlib.known_findings()["finding"] if f["property"] == R.pid}
     if R.broken and not [v for v in R.violations if v["sig"] not in known]:
         for s in range(100, 103):
-            o2 = observe(R, 2000, dapp, seed=R.seed + s)
+            o2 = observe(R, 2000, seed=R.seed + s)
             if o2:
                 _, _, viol2, t2, cases2 = o2
                 total += t2
